@@ -90,18 +90,38 @@ Theorem C07_linearizable :
 Proof. exact g_linearizable. Qed.
 Print Assumptions C07_linearizable.
 
+(** THE SEQUENTIAL HISTORY IS THE EXECUTION, REORDERED.  For EVERY annotation [lin … tr] of the execution [ls]
+    (one exists by [C07_linearizable]):  no phantom operations — every entry of the sequential history
+    [lins tr] is an operation the execution started;  and restricted to any thread [t], [lins tr] lists exactly
+    the operations [t] completed, in the order and with the logs it returned them ([thread_returns t ls]),
+    followed by at most one operation that is linearized but has not returned yet — none when [t] is idle.
+    Together with [C07_real_time_order] this is linearizability in the classical sense: a reordering of the
+    execution's own operations that preserves per-thread and real-time order and is legal sequentially. *)
+Theorem C07_history_is_the_execution :
+  forall (val arg : Type) (wfun : op arg -> nat -> list val -> val) (sk : skel) (wp : bool) (K : lock),
+    wf_skel K sk = true ->
+    forall (c0 : cfg val arg) ls c σ pl tr,
+      initial c0 -> lin wfun sk wp c0 ls c σ pl tr ->
+      (forall t o log, In (t, o, log) (lins tr) -> In (LBegin t o) ls) /\
+      (forall t, exists extra,
+         thread_hist t (lins tr) = thread_returns t ls ++ extra /\ length extra <= 1 /\
+         (c_thr c t = None -> extra = [])).
+Proof. exact g_history_is_execution. Qed.
+Print Assumptions C07_history_is_the_execution.
+
 (** every concurrently served request is matched against one committed state:
-    a completed operation (in particular a lookup) returned exactly the log the
-    sequential specification produces for it in a state [s1] that is reached by
-    executing whole operations one after the other — never a partially applied
-    change *)
+    in the sequential history [lins tr] OF THIS EXECUTION, a completed operation
+    (in particular a lookup) sits at a position where the sequential
+    specification, run on the state [s1] reached by the whole operations before
+    it, returns exactly the log the operation returned — never a partially
+    applied change *)
 Theorem C07_readers_see_committed_state :
   forall (val arg : Type) (wfun : op arg -> nat -> list val -> val) (sk : skel) (wp : bool) (K : lock),
     wf_skel K sk = true ->
-    forall (c0 : cfg val arg) ls c t o log,
-      initial c0 -> exec wfun sk wp c0 ls c -> In (LEnd t o log) ls ->
-      exists H H1 H2 s s1 s2,
-        seq_hist wfun sk (abs_of c0) H s /\ H = H1 ++ (t, o, log) :: H2 /\
+    forall (c0 : cfg val arg) ls c σ pl tr t o log,
+      initial c0 -> lin wfun sk wp c0 ls c σ pl tr -> In (LEnd t o log) ls ->
+      exists H1 H2 s1 s2,
+        lins tr = H1 ++ (t, o, log) :: H2 /\
         seq_hist wfun sk (abs_of c0) H1 s1 /\ seq_run wfun sk o s1 = Some (s2, log).
 Proof. exact g_committed. Qed.
 Print Assumptions C07_readers_see_committed_state.
@@ -109,31 +129,31 @@ Print Assumptions C07_readers_see_committed_state.
 (** real-time order: if operation 1 had returned before operation 2 was invoked
     (the labels in [ld] between the invocation and the response of operation 2
     are not starts/ends of thread [t2], i.e. that response belongs to that
-    invocation), the sequential history has operation 1 before operation 2 *)
+    invocation), the sequential history [lins tr] of this execution has
+    operation 1 before operation 2 *)
 Theorem C07_real_time_order :
   forall (val arg : Type) (wfun : op arg -> nat -> list val -> val) (sk : skel) (wp : bool) (K : lock),
     wf_skel K sk = true ->
-    forall (c0 c : cfg val arg) la t1 o1 log1 lb t2 o2 ld log2 le,
+    forall (c0 c : cfg val arg) σ pl tr la t1 o1 log1 lb t2 o2 ld log2 le,
       initial c0 ->
-      exec wfun sk wp c0 (la ++ LEnd t1 o1 log1 :: lb ++ LBegin t2 o2 :: ld ++ LEnd t2 o2 log2 :: le) c ->
+      lin wfun sk wp c0 (la ++ LEnd t1 o1 log1 :: lb ++ LBegin t2 o2 :: ld ++ LEnd t2 o2 log2 :: le) c σ pl tr ->
       Forall (other_thread t2) ld ->
-      exists H Ha Hm Hb s,
-        seq_hist wfun sk (abs_of c0) H s /\ H = Ha ++ (t1, o1, log1) :: Hm ++ (t2, o2, log2) :: Hb.
+      exists Ha Hm Hb, lins tr = Ha ++ (t1, o1, log1) :: Hm ++ (t2, o2, log2) :: Hb.
 Proof. exact g_real_time. Qed.
 Print Assumptions C07_real_time_order.
 
-(** no change is lost or half overwritten: when no operation is in flight, the
-    guarded fields and the published tree ARE the state reached by the
-    sequential history, which contains every completed operation *)
+(** no change is lost or half overwritten, none is invented: when no operation is
+    in flight, the sequential history contains, per thread, exactly the completed
+    operations (same order, same logs), it is legal, and the guarded fields and
+    the published tree ARE the state it leads to *)
 Theorem C07_no_lost_update :
   forall (val arg : Type) (wfun : op arg -> nat -> list val -> val) (sk : skel) (wp : bool) (K : lock),
     wf_skel K sk = true ->
-    forall (c0 : cfg val arg) ls c,
-      initial c0 -> exec wfun sk wp c0 ls c -> (forall t, c_thr c t = None) ->
-      exists H σ,
-        seq_hist wfun sk (abs_of c0) H σ /\
-        (forall t o log, In (LEnd t o log) ls -> In (t, o, log) H) /\
-        (forall v, c_val c v = s_val σ v) /\ (forall p, c_heap c (c_ptr c p) = s_pub σ p).
+    forall (c0 : cfg val arg) ls c σ pl tr,
+      initial c0 -> lin wfun sk wp c0 ls c σ pl tr -> (forall t, c_thr c t = None) ->
+      seq_hist wfun sk (abs_of c0) (lins tr) σ /\
+      (forall t, thread_hist t (lins tr) = thread_returns t ls) /\
+      (forall v, c_val c v = s_val σ v) /\ (forall p, c_heap c (c_ptr c p) = s_pub σ p).
 Proof. exact g_no_lost_update. Qed.
 Print Assumptions C07_no_lost_update.
 
@@ -149,7 +169,8 @@ Print Assumptions C07_seq_spec_total.
 
 (** the boolean check is not idle: a skeleton that it rejects (pointer stored and
     loaded without any lock) does reach a data race in the semantics *)
-Theorem C07_check_is_needed :
+(* sanity facts about single terms (not property theorems; not listed in P["theorems"]) *)
+Lemma C07_check_is_needed :
   exists (sk : skel) (c : cfg nat unit),
     wf_locks sk = false /\ reach wf0 sk false c /\ var_race c.
 Proof. exact check_is_needed. Qed.
@@ -157,7 +178,7 @@ Print Assumptions C07_check_is_needed.
 
 (** ... and the pattern of the repository (hand-written here, independent of the
     generated file) is accepted, so the theorems are not vacuous *)
-Theorem C07_nonvacuous : wf_skel 0 (ex_skel (ex_add true false false)) = true.
+Lemma C07_nonvacuous : wf_skel 0 (ex_skel (ex_add true false false)) = true.
 Proof. exact ex_good. Qed.
 Print Assumptions C07_nonvacuous.
 
@@ -173,16 +194,16 @@ Print Assumptions C07_repo_safe.
 Theorem C07_repo_linearizable :
   forall (val arg : Type) (wfun : op arg -> nat -> list val -> val) (wp : bool) (c0 : cfg val arg) ls c,
     initial c0 -> exec wfun repo_skel wp c0 ls c ->
-    (exists σ pl tr ph,
-       lin wfun repo_skel wp c0 ls c σ pl tr /\ seq_hist wfun repo_skel (abs_of c0) (lins tr) σ /\
-       wb (fun _ => PIdle) tr ph /\ io_marks tr = io_labels ls) /\
-    (forall t o log, In (LEnd t o log) ls ->
-       exists H H1 H2 s s1 s2,
-         seq_hist wfun repo_skel (abs_of c0) H s /\ H = H1 ++ (t, o, log) :: H2 /\
-         seq_hist wfun repo_skel (abs_of c0) H1 s1 /\ seq_run wfun repo_skel o s1 = Some (s2, log)) /\
-    ((forall t, c_thr c t = None) ->
-       exists H σ, seq_hist wfun repo_skel (abs_of c0) H σ /\
-         (forall t o log, In (LEnd t o log) ls -> In (t, o, log) H) /\
+    exists σ pl tr ph,
+      lin wfun repo_skel wp c0 ls c σ pl tr /\ seq_hist wfun repo_skel (abs_of c0) (lins tr) σ /\
+      wb (fun _ => PIdle) tr ph /\ io_marks tr = io_labels ls /\
+      (forall t o log, In (t, o, log) (lins tr) -> In (LBegin t o) ls) /\
+      (forall t, exists extra, thread_hist t (lins tr) = thread_returns t ls ++ extra /\ length extra <= 1 /\
+                               (c_thr c t = None -> extra = [])) /\
+      (forall t o log, In (LEnd t o log) ls ->
+         exists H1 H2 s1 s2, lins tr = H1 ++ (t, o, log) :: H2 /\
+           seq_hist wfun repo_skel (abs_of c0) H1 s1 /\ seq_run wfun repo_skel o s1 = Some (s2, log)) /\
+      ((forall t, c_thr c t = None) ->
          (forall v, c_val c v = s_val σ v) /\ (forall p, c_heap c (c_ptr c p) = s_pub σ p)).
 Proof. exact repo_linearizable. Qed.
 Print Assumptions C07_repo_linearizable.
